@@ -104,6 +104,10 @@ func H_C13_Amounts() {
 	}
 	send = &s
 	*change = chg
+	// -msg: an arbitrary message of a length from each push-encoding class (none, direct push, PUSHDATA1)
+	ml := []int{0, 1, 75, 76, 77}[zzverif.Enum("msg-len", 5)]
+	msg := string(zzverif.Bytes("msg", ml))
+	message = &msg
 
 	// two owned outputs
 	var ids [2][32]byte
@@ -168,10 +172,23 @@ func H_C13_Amounts() {
 	}
 	zzverif.Assert("C13.funds.sufficient", in >= pay+asked2+curFee)
 	rest := in - pay - asked2 - curFee
+	nm := 0
+	if ml > 0 {
+		nm = 1
+		last := tx.TxOut[len(tx.TxOut)-1]
+		want := []byte{0x6a}
+		if ml < 76 {
+			want = append(want, byte(ml))
+		} else {
+			want = append(want, 0x4c, byte(ml))
+		}
+		want = append(want, msg...)
+		zzverif.Assert("C13.msg.output", last.Value == 0 && bytes.Equal(last.Pk_script, want))
+	}
 	if rest > 0 {
-		zzverif.Assert("C13.change", len(tx.TxOut) == nd+1 && tx.TxOut[nd].Value == rest && bytes.Equal(tx.TxOut[nd].Pk_script, chgAddr.OutScript()))
+		zzverif.Assert("C13.change", len(tx.TxOut) == nd+1+nm && tx.TxOut[nd].Value == rest && bytes.Equal(tx.TxOut[nd].Pk_script, chgAddr.OutScript()))
 	} else {
-		zzverif.Assert("C13.no-change-output", len(tx.TxOut) == nd)
+		zzverif.Assert("C13.no-change-output", len(tx.TxOut) == nd+nm)
 	}
 	if !*useallinputs && len(tx.TxIn) == 2 {
 		zzverif.Assert("C13.inputs.needed", vals[0] < pay+asked2+curFee)
